@@ -120,6 +120,20 @@ def handleSim (s : DState) (toks : List String) : Option Out :=
       | some a => some (s, ["simname ok " ++ a.name])
       | none => some (s, ["simname err"])
     | none => none
+  | ["simpair", slot, nm, k, a, b] =>
+    -- one pair of terms (ontologies too deep for the all-pairs listing)
+    match parseName nm, parseKind k, a.toNat?, b.toNat? with
+    | some cs, some k, some a, some b =>
+      match slot.toNat?.bind s.slot with
+      | none => some (s, ["noslot"])
+      | some o =>
+        match Sim.algOfName (String.ofList cs), o.terms.find? (fun t => t.id == a), o.terms.find? (fun t => t.id == b) with
+        | some alg, some ta, some tb =>
+          match simRowScores o alg k (icLookup (icTable o k)) ta [tb] with
+          | some r => some (s, [String.intercalate " " ("SP" :: r)])
+          | none => some (die s)
+        | _, _, _ => some (s, ["sim err"])
+    | _, _, _, _ => none
   | ["sim", slot, nm, k] =>
     match parseName nm, parseKind k with
     | some cs, some k =>
